@@ -194,6 +194,23 @@ CLAIMED["C17"] = {
     "design_ref": "DESIGN.md section 5 C17",
 }
 
+CLAIMED["C02"] = {
+    "level": "model_checking",
+    "text": "TLC checks that an implementation-shaped model of hash_table.c (Robin Hood probing with early exit, victim swapping, doubling "
+            "rehash, backward-shift deletion, iterator slot/limit arithmetic, foreach) refines an abstract map (key objects, values, destructor "
+            "bags, exactly-once iteration) on the complete reachable state space for every hash function over small code sets (4-slot, 2->4->8 "
+            "growing and 8-slot clustered arrays; NULL key; with/without destructors); the real aws_hash_table is then driven, through a "
+            "table-driven hash callback carrying model-chosen and adversarial 64-bit codes (constant, last slot, zero, UINT64_MAX, colliding-"
+            "until-growth) and through the library's own hash/equality pairs, along TLC-generated and seeded random scripts on two table "
+            "structs, and TLC validates every recorded result, destructor invocation, entry count and a find of every key class after every "
+            "call against the abstract map; equal-but-distinct key pairs check eq => same hash for all six library pairs.",
+    "note": "Model exhaustive only for <=5 key classes / <=16 slots; code covered along ~2.4k (quick) / ~52k (thorough) replayed executions, "
+            "not proved. OOM and near-SIZE_MAX sizes excluded; foreach DELETE-without-CONTINUE accepted either way (header ambiguous). "
+            "Trusted: TLC, adapter projection (pointer->object id), ASan.",
+    "technique": "TLA+ specs HashMap.tla (abstract) + RobinHood.tla (implementation-shaped, refinement checked by TLC) + trace validation of real executions (HashMapTrace.tla)",
+    "design_ref": "DESIGN.md section 5 C02",
+}
+
 NOT_YET = "check not built yet (work in progress in this session; see DESIGN.md section 8 build order)"
 NOT_APPLICABLE = {}
 ALL = ["C%02d" % i for i in range(1, 21)]
